@@ -33,7 +33,7 @@ CHECKS = {
                      "known findings K01-K04, replayed with 42-57-byte archives under RLIMIT_AS); (2) Worker.decompress and the "
                      "encoded-header loop of Header._read make progress or raise on every step even when the decoder returns "
                      "nothing and takes no input (fixed F16/F17); (3) get_memory_limit() for every RLIMIT_DATA / available-memory "
-                     "value (open known finding K05: 0 or negative at or below 256 MB); (4) every call sequence of length 2 (3) "
+                     "value (found and repaired: 0 or negative at or below 256 MB, F30); (4) every call sequence of length 2 (3) "
                      "over extractall/extract/testzip terminates, including decoding twice WITHOUT reset() (an exhausted decoder "
                      "answers nothing); (5) every decoder wrapper forwards the caller's max_length to its decoder, so no wrapper "
                      "produces output beyond what was asked for (shared with C20).",
@@ -61,7 +61,7 @@ CHECKS = {
                      "source and archive reads are at most one block, bytes carried between calls equal produced minus delivered, "
                      "every stage of a decoder chain is asked for at most what the caller asked for, "
                      "LZMA1/PPMd wrappers forward the caller's limit to the decoder (the wrappers that cannot are enumerated), "
-                     "get_memory_limit() range (open known finding K05). Peak RSS and the 700 MiB figure are NOT decided.",
+                     "get_memory_limit() range (always between one read block and 128 MB). Peak RSS and the 700 MiB figure are NOT decided.",
                 note="resident memory, allocation inside the C codecs and GB-sized members need measurement: outside this technique"),
     "C02": dict(engine=B, ref="DESIGN.md §3 (C02)",
                 technique="bounded symbolic execution of the real _make_file_info + ArchiveFile decoding from the AST over a symbolic "
